@@ -117,6 +117,16 @@ def run_case(cfg, ctx):
       ctx.skip("unsupported_configuration")
       return
     k = check_membership(ctx, cfg, fmt, x, y, base, "probes")
+    if cfg["idx"] % 5 == 0:
+      # the same probes through a traced tf.function (how a layer in a compiled model calls the quantizer)
+      okg, yg = ctx.call(dict(base, op="tf.function"), qenv.call_graph, q, x)
+      if okg:
+        ctx.count("graph_calls_checked")
+        check_membership(ctx, cfg, fmt, x, yg, base, "probes, traced call")
+        if not np.array_equal(yg, y) and fixed.is_dyadic(fmt.alpha) and not fmt.surrogate.endswith("_real"):
+          i = int(np.argmax(yg != y))
+          ctx.violation(dict(base, kind="traced_call_differs_from_eager_call"),
+                        "x=%r: eager %r, inside tf.function %r" % (float(x[i]), float(y[i]), float(yg[i])), None)
     ctx.nontrivial_many((cls, sorted(cfg["kw"].items(), key=str), cfg.get("sigmoid")), x)
     ctx.sample({"cfg": cfg, "format": repr(fmt), "n_probes": int(x.size),
                 "first_probes": x[:6].tolist(), "first_outputs": y[:6].tolist()})
